@@ -128,7 +128,7 @@ PROPS = {
  ),
  "C04": dict(
     level_text="Lean 4 proof of `no reachable state is stuck` (an accepted event pending, all producers returned, every live stream parked and un-notified) for the poll/park/wake protocol model, for all six wake rules (uni full-sync, atomic, crossbeam, send-reserved; a Multi listener's queue on the atomic and on the full-sync channels), every number of streams/producers/buffer sizes/schedules, spurious polls and waker changes included, by an inductive invariant; counterexample theorems for what the invariant does not survive (movable send_with_async, MAX_STREAMS = 0). The wake decision of EVERY send path of EVERY channel is re-read from the current source on every run by the translator (tools/extract.py G3 -> Generated/WakeRules.lean, a guard-chain term per function) and proved, for all MAX_STREAMS and lengths, to compute the model rule the theorem is instantiated with (Props/C04_Rules.lean, 24 send paths). Tied to the five real Uni channels by step-level replay of scheduled runs - including runs that end stuck, where model and code agree step by step; stuck states are decided by the scheduler (nobody runnable), not timed out. A second, finer-grained search (every ring access a yield point) judges the implementation alone.",
-    level_note="Theorem about model M8, in which a queue operation is one step (C02) - the two-phase publication of the atomic rings is visible only to the oracle-only `fine` search; one task per stream token for C07; Multi channels are replayed through one listener (MAX_STREAMS = 1; with several listeners each queue runs the same protocol independently); the log channel wakes every listener after every publication (covered by the oracle of its own scenario). Known findings are listed in known_findings.json.",
+    level_note="Theorem about model M8, in which a queue operation is one step (C02) - the two-phase publication of the atomic rings is visible only to the oracle-only `fine` search; one task per stream token for C07; Multi channels are replayed through one listener (MAX_STREAMS = 1; with several listeners each queue runs the same protocol independently); the log channel wakes every listed listener after every publication: rule `all`, an instance of the theorem like the others (its wake decision is read from the source by G3; its protocol is exercised by `mmaplog sub=wake`). Known findings are listed in known_findings.json.",
     lean=["C04", "C04_Rules"],
     scenarios=[dict(bin="uni", args=[f"kind={k}", "sub=flow"], runs=500, model_name="M8 Wake", kinds=["lost_wakeup", "no_progress", "panic"]) for k in UNI_KINDS] +
               [dict(bin="uni", args=[f"kind={k}", "sub=flow"], runs=300, model_name="M8 Wake", kinds=["lost_wakeup", "no_progress", "panic"]) for k in MULTI1_KINDS] +
@@ -162,13 +162,14 @@ PROPS = {
     assumptions=["producer-side calls are sequential while reservations are cancelled (the channel documents reverse-order cancellation)", "payloads without destructor"],
  ),
  "C15": dict(
-    level_text="Lean 4 proof of a REFINEMENT between two executable machines: Ring32 (model of AtomicMove computing on u32 residues with exactly the wrapping / signed / checked operations of the source) is, action for action and for runs of any length, the image modulo 2^32 of ring model M1 over free-running naturals, and never panics (c15_refinement; window hypotheses derived from a bound on the number of threads by a pigeonhole argument; index-based re-guess loops related at call level); plus: every decision the rings take from their wrapping u32 counters (admission, emptiness as a signed difference, slot index, length, CAS equality, lap reconstruction of index-based publish / cancel with its checked + and *) equals the decision model M1/M2 takes from free-running naturals, for counters of ANY magnitude inside the windows the ring invariant provides, and that no checked operation overflows (counterexample theorem: the pinned `enqueuer_tail - 1` does). Tied to the code: step-level replay from origins just below 2^32 (counters wrap during the run), differential replay of sequential histories from five origins in the release and the overflow-checking build.",
-    level_note="Ring32 and the arithmetic of Mutiny/Model/U32.lean are hand transcriptions of the source, tied to it by replaying the recorded traces of the real AtomicMove on Ring32 itself from origins around 2^32 (every hook register compared as it is); the refinement theorem excludes an exact multiple of 2^32 events flowing between the two loads of the emptiness re-check (hypothesis noABA); FullSyncMove: arithmetic lemmas + replay only; BUFFER_SIZE a power of two enters as N | 2^32; fewer than 2^31 - N concurrent claimants.",
+    level_text="Lean 4 proof of a REFINEMENT between two executable machines: Ring32 (model of AtomicMove computing on u32 residues with exactly the wrapping / signed / checked operations of the source) is, action for action and for runs of any length, the image modulo 2^32 of ring model M1 over free-running naturals, and never panics (c15_refinement; window hypotheses derived from a bound on the number of threads by a pigeonhole argument; index-based re-guess loops related at call level), and the same for FullSyncMove (LockRing32, c15_lockring_refinement); plus: every decision the rings take from their wrapping u32 counters (admission, emptiness as a signed difference, slot index, length, CAS equality, lap reconstruction of index-based publish / cancel with its checked + and *) equals the decision model M1/M2 takes from free-running naturals, for counters of ANY magnitude inside the windows the ring invariant provides, and that no checked operation overflows (counterexample theorem: the pinned `enqueuer_tail - 1` does). Tied to the code: step-level replay from origins just below 2^32 (counters wrap during the run), differential replay of sequential histories from five origins in the release and the overflow-checking build.",
+    level_note="Ring32 and the arithmetic of Mutiny/Model/U32.lean are hand transcriptions of the source, tied to it by replaying the recorded traces of the real AtomicMove on Ring32 itself from origins around 2^32 (every hook register compared as it is); the refinement theorem excludes an exact multiple of 2^32 events flowing between the two loads of the emptiness re-check (hypothesis noABA); FullSyncMove likewise: LockRing32 with refinement theorem c15_lockring_refinement (no thread hypothesis needed under the lock) and replay; BUFFER_SIZE a power of two enters as N | 2^32; fewer than 2^31 - N concurrent claimants.",
     lean=["C15", "C15_Machine"],
     scenarios=[ring(k, "diff", 300, extra=["origins=0,4294967288,4294967280,4294967272,4294967264"], model=False, profile=p) for k in ("atomic", "fullsync") for p in ("release", "checked")] +
               [ring(k, "mixed", 800, extra=["origins=4294967288,4294967280,0,4294967264"]) for k in ("atomic", "fullsync")] +
               # the same real traces replayed on the u32 machine Ring32 itself (hook values compared as they are, index-based calls from every origin)
               [ring("atomic", sub, 800, extra=["origins=4294967288,4294967280,0,4294967264,4294967272", "model32=1"], profile=p, model_name="M1/32 Ring32") for sub in ("mixed", "rsv") for p in ("release", "checked")] +
+              [ring("fullsync", "mixed", 800, extra=["origins=4294967288,4294967280,0,4294967264,4294967272", "model32=1"], profile=p, model_name="M2/32 LockRing32") for p in ("release", "checked")] +
               [handles("atomic", 300)],
     profiles=["release", "checked"],
     rule="the same seeded history is replayed from sequence origins {0, 2^32-8, 2^32-16, 2^32-24, 2^32-32} (rounded to multiples of N) and every answer compared; NON-TRIVIAL if it contains index-based publish/cancel; plus scheduled concurrent runs from those origins replayed on the model",
